@@ -351,8 +351,8 @@ theorem repeat_step {lib : List Nat} {r : Nat} {f0 : File} :
       exact List.mem_mergeSort.mp this
     obtain ⟨o, ho⟩ := mem_oldPaths hmem
     have hl := lookup_of_mem hwf.1 ho
-    simp only [applyStep, convertProp, hl, Prod.mk.injEq] at hs
-    obtain ⟨hg, he⟩ := hs
+    simp only [applyStep] at hs
+    obtain ⟨_, hg, he⟩ := convertProp_old_ok hl hs
     subst hg
     refine ⟨fun x hx => ?_, hinv.2⟩
     simp only
